@@ -222,6 +222,28 @@ Theorem C08_flag_subscribe_to_a_true_side_is_answered_at_once :
 Proof. exact FlagList.subscribe_when_true_is_scheduled_at_once. Qed.
 Print Assumptions C08_flag_subscribe_to_a_true_side_is_answered_at_once.
 
+(** A Tracked value and its comparisons (TrackedList.v - compared on every run with the real Tracked / AsyncComparison driven
+    under a stand-in loop): for EVERY history of creating comparisons, subscribing to them and setting the value, nobody is
+    parked on a comparison that holds; a set wakes exactly the waiters of the comparisons that hold afterwards (comparison
+    by comparison in creation order, each list oldest first) and leaves the others untouched. *)
+From Usim Require TrackedList.
+Theorem C08_tracked_nobody_parked_on_a_true_comparison :
+  forall v ops, Forall (fun x => TrackedList.c_holds (TrackedList.value (TrackedList.run v ops)) x = true -> TrackedList.c_wait x = [])
+                       (TrackedList.cmps (TrackedList.run v ops)).
+Proof. exact TrackedList.never_parked_on_a_comparison_that_holds. Qed.
+Print Assumptions C08_tracked_nobody_parked_on_a_true_comparison.
+
+Theorem C08_tracked_set_wakes_the_waiters_of_every_true_comparison :
+  forall v0 ops v,
+    let s := TrackedList.run v0 ops in let s' := TrackedList.run v0 (ops ++ [TrackedList.SetTo v]) in
+    TrackedList.scheduled s' = TrackedList.scheduled s ++
+      flat_map (fun x => if TrackedList.c_holds v x then TrackedList.c_wait x else []) (TrackedList.cmps s) /\
+    TrackedList.value s' = v /\ length (TrackedList.cmps s') = length (TrackedList.cmps s) /\
+    (forall i x, nth_error (TrackedList.cmps s) i = Some x -> TrackedList.c_holds v x = false ->
+                 nth_error (TrackedList.cmps s') i = Some x).
+Proof. exact TrackedList.set_wakes_the_waiters_of_every_true_comparison. Qed.
+Print Assumptions C08_tracked_set_wakes_the_waiters_of_every_true_comparison.
+
 (** (A) the tie to /repo's current source: every function this property's models were transcribed from has, in the
     tree this run is checking, the normalised source it had when the models were validated (hashes regenerated from
     /repo into gen/Generated.v on every run; pins in gen/SourcePins.v).  A change to one of them invalidates the
